@@ -19,7 +19,7 @@ import tempfile
 
 sys.path.insert(0, os.path.dirname(os.path.dirname(os.path.abspath(__file__))))
 
-from sim import core, evidence, gen, isolate, ops, report, runner, simrandom  # noqa: E402
+from sim import core, evidence, gen, inject, isolate, ops, report, runner, simrandom  # noqa: E402
 
 PROP = "C13"
 SCRIPT = os.path.join("checks", "c13.py")
@@ -248,9 +248,19 @@ def run_cases_child(cases: list, info: dict, history_seed: int | None) -> list:
     if history_seed is not None:
         rng = random.Random(history_seed)
         weights = gen.swarm_weights(rng)
+        inj = inject.AbortInjector(len(runner.PKG_DIR))
         for _ in range(5 + rng.randrange(25)):
             op, _ = gen.gen_op(rng, runner.POOL, weights)
-            ops.execute(op)
+            if rng.random() < 0.3:  # a call unwound half-way (SimAbort / MemoryError at a random library line)
+                inj.arm(1 + rng.randrange(60), rng.choice(["SimAbort", "MemoryError"]))
+                try:
+                    ops.execute(op)
+                except inject.SimAbort:
+                    pass
+                finally:
+                    inj.disarm()
+            else:
+                ops.execute(op)
     for case in cases:
         d1 = draw(case)
         viol = check_draw(case, d1, info)
@@ -271,7 +281,10 @@ def run_cases_child(cases: list, info: dict, history_seed: int | None) -> list:
 def worker_task(task: dict) -> dict:
     isolate.worker_guard(6000)
     vseed = task["vseed"]
-    cases = [gen_case(i, vseed, INFO) for i in task["indices"]]
+    cases = [] if runner.past(task.get("deadline")) else [gen_case(i, vseed, INFO) for i in task["indices"]]
+    if not cases:
+        return {"draws": 0, "violations": [], "violation_count": 0, "results": {}, "classes": [], "violating": [],
+                "probes": {"tasks_cut_short_by_wall_clock_cap": 1}, "outcomes": {}, "prng_calls": 0, "samples": []}
     first = isolate.fork_call(run_cases_child, (cases, INFO, None), timeout=600)
     hseed = core.run_seed(vseed, PROP + "-history", task["indices"][0])
     after = isolate.fork_call(run_cases_child, (cases, INFO, hseed), timeout=600)
@@ -495,7 +508,8 @@ def main() -> int:
         ["0", "1", "2", "3", "7", "42", "4242", "65535", "99991", "123456789", "4294967295", derived] + \
         [str(core.run_seed(vseed, PROP + "-hashseed", k) % 4294967295) for k in range(1, 5)]
     nfresh = 2540 if args.tier == "quick" else 12_700
-    tasks = [{"indices": ch, "vseed": vseed} for ch in runner.chunks(list(range(ncases)), 127)]
+    deadline = runner.wall_cap(args.tier)
+    tasks = [{"indices": ch, "vseed": vseed, "deadline": deadline} for ch in runner.chunks(list(range(ncases)), 127)]
     fresh_cases = [gen_case(i, vseed, INFO) for i in range(0, ncases, max(1, ncases // nfresh))][:nfresh]
     wp = isolate.Pool(core.workers())
     agg = {"draws": 0, "violation_count": 0, "prng_calls": 0}
@@ -554,7 +568,7 @@ def main() -> int:
         "evaluations": agg["draws"] + fresh_done,
         "distinct_nontrivial": len(classes),
         "rule": "one evaluation = one call of IBAN.random/BBAN.random under a simulator-owned generator (each generated "
-                "case is drawn twice in a pristine fork, twice more after a random call history, and a sample again in "
+                "case is drawn twice in a pristine fork, twice more after a random call history (30 % of whose calls are aborted half-way), and a sample again in "
                 "fresh interpreters under other PYTHONHASHSEED values); distinct non-trivial = distinct (country, api, "
                 "registry mode, set of pinned components, PRNG bias, outcome class) tuples in which the generator was consulted",
         "samples": samples[:4] or [{"note": "no sample"}],
